@@ -1,5 +1,164 @@
-import Toq.Driver.Util
-/-! Driver handlers for C13 (stub; filled in by the owner of this property). -/
+import Toq.Driver.QJson
+import Toq.Model.Metrics
+/-! Driver front end for C13 (state distance measures: certificate checkers and exact evaluators).
+
+Matrices: `{"e":k,"re":[…],"im":[…]}` (entries `(re + i·im)/2^k`) or `{"den":D,"re":[…],"im":[…]}` (entries
+`(re + i·im)/D`, `D > 0`), row-major; `"im"` may be omitted.
+
+* `c13_tn_lower  {"n","r","H","W","L1","L2"}`                 (`L1`, `L2`: `n × r`, default `r = n`)
+* `c13_tn_upper  {"n","r","H","P","Q","LP","LQ"}`
+* `c13_fid_primal      {"n","r","rho","sigma","X","L"}`       (`L`: `2n × r`, default `r = 2n`)
+* `c13_fid_primal_cong {"n","k","r","rho","sigma","X","B","M","L"}`  (`B`: `2n × k`, `M`: `k × k`, `L`: `k × r`, default `r = k`)
+* `c13_fid_dual        {"n","r","rho","sigma","Y","Z","L"}`
+* `c13_mats_primal     {"n","r","rho","sigma","W","L"}`
+* `c13_mats_dual       {"n","r","rho","sigma","Y","Z","C","L"}`
+* `c13_exact     {"n","rho","sigma"}` → `{"hs","trprod","trprod4","subfidrad"}` (rationals)
+* `c13_hs_inner  {"n","m","A","B"}`   → `{"re","im"}`
+
+Checker answers: `{"ok":[num,den]}` (the exact value returned by the verified checker of `Toq.Model.Metrics`) or
+`{"reject":"<first failed condition>"}`; the diagnostic only words a rejection by re-evaluating the same named
+conditions. -/
+open Lean Toq.Metrics EMat
+
 namespace Toq.Driver.C13
-def handlers : List (String × Handler) := []
+
+def parseQMat (n m : Nat) (j : Json) : Except String (EMat n m) := do
+  match j.getObjVal? "den" with
+  | .ok dj =>
+    let d ← dj.getNat?
+    if d == 0 then throw "matrix: zero denominator"
+    let re ← getIntArray j "re"
+    let im := (getIntArray j "im").toOption.getD (Array.replicate (n * m) 0)
+    if re.size != n * m || im.size != n * m then throw s!"matrix size mismatch: expected {n}x{m}, got {re.size}"
+    return EMat.ofFn fun i k => ⟨(re[i.val * m + k.val]! : Rat) / (d : Rat), (im[i.val * m + k.val]! : Rat) / (d : Rat)⟩
+  | .error _ => parseEMat n m j
+
+def getQ (j : Json) (key : String) (n m : Nat) : Except String (EMat n m) := do
+  parseQMat n m (← j.getObjVal? key)
+
+def natOr (j : Json) (key : String) (dflt : Nat) : Nat := (getNat j key).toOption.getD dflt
+
+def firstFail (k : Nat) (p : Fin k → Bool) : Option Nat :=
+  ((List.finRange k).find? fun i => !p i).map (·.val)
+
+/-- why `psdCert A L` fails (`none` when it holds) -/
+def psdWhy {n k : Nat} (A : EMat n n) (L : EMat n k) : Option String :=
+  if !A.isHermitian then some "not_hermitian"
+  else
+    let R := A - L.mul L.ct
+    if !R.isHermitian then some "residual_not_hermitian"
+    else
+      match firstFail n fun i =>
+          decide (sumFinQ n (fun j => if j = i then 0 else (R.get i j).abs1) ≤ (R.get i i).re) with
+      | some i => some s!"residual_not_diag_dominant_row_{i}"
+      | none => if psdCert A L then none else some "psdCert_failed"
+
+def answer (r : Option Rat) (why : Unit → String) : Json :=
+  match r with
+  | some v => Json.mkObj [("ok", ratJson v)]
+  | none => reject (why ())
+
+def firstWhy (l : List (String × Option String)) : String :=
+  match l.findSome? fun x => x.2.map fun s => x.1 ++ "_" ++ s with
+  | some s => s
+  | none => "rejected"
+
+def hTNLower : Handler := fun j => do
+  let n ← getNat j "n"
+  let r := natOr j "r" n
+  let H ← getQ j "H" n n
+  let W ← getQ j "W" n n
+  let L1 ← getQ j "L1" n r
+  let L2 ← getQ j "L2" n r
+  return answer (checkTNLower H W L1 L2) fun _ =>
+    if !H.isHermitian then "H_not_hermitian"
+    else firstWhy [("one_minus_W", psdWhy ((one : EMat n n) - W) L1), ("one_plus_W", psdWhy ((one : EMat n n) + W) L2)]
+
+def hTNUpper : Handler := fun j => do
+  let n ← getNat j "n"
+  let r := natOr j "r" n
+  let H ← getQ j "H" n n
+  let P ← getQ j "P" n n
+  let Q ← getQ j "Q" n n
+  let LP ← getQ j "LP" n r
+  let LQ ← getQ j "LQ" n r
+  return answer (checkTNUpper H P Q LP LQ) fun _ =>
+    if !H.beq (P - Q) then "H_ne_P_minus_Q"
+    else firstWhy [("P", psdWhy P LP), ("Q", psdWhy Q LQ)]
+
+def hFidPrimal : Handler := fun j => do
+  let n ← getNat j "n"
+  let r := natOr j "r" (n + n)
+  let ρ ← getQ j "rho" n n
+  let σ ← getQ j "sigma" n n
+  let X ← getQ j "X" n n
+  let L ← getQ j "L" (n + n) r
+  return answer (checkFidPrimal ρ σ X L) fun _ => firstWhy [("block", psdWhy (fidBlock ρ σ X) L)]
+
+def hFidPrimalCong : Handler := fun j => do
+  let n ← getNat j "n"
+  let k ← getNat j "k"
+  let r := natOr j "r" k
+  let ρ ← getQ j "rho" n n
+  let σ ← getQ j "sigma" n n
+  let X ← getQ j "X" n n
+  let B ← getQ j "B" (n + n) k
+  let M ← getQ j "M" k k
+  let L ← getQ j "L" k r
+  return answer (checkFidPrimalCong ρ σ X B M L) fun _ =>
+    if !(fidBlock ρ σ X).beq ((B.mul M).mul B.ct) then "block_ne_B_M_Bct"
+    else firstWhy [("M", psdWhy M L)]
+
+def hFidDual : Handler := fun j => do
+  let n ← getNat j "n"
+  let r := natOr j "r" (n + n)
+  let ρ ← getQ j "rho" n n
+  let σ ← getQ j "sigma" n n
+  let Y ← getQ j "Y" n n
+  let Z ← getQ j "Z" n n
+  let L ← getQ j "L" (n + n) r
+  return answer (checkFidDual ρ σ Y Z L) fun _ => firstWhy [("dual_block", psdWhy (dualBlock Y Z (-(one : EMat n n))) L)]
+
+def hMatsPrimal : Handler := fun j => do
+  let n ← getNat j "n"
+  let r := natOr j "r" (n + n)
+  let ρ ← getQ j "rho" n n
+  let σ ← getQ j "sigma" n n
+  let W ← getQ j "W" n n
+  let L ← getQ j "L" (n + n) r
+  return answer (checkMatsPrimal ρ σ W L) fun _ =>
+    if !W.isHermitian then "W_not_hermitian" else firstWhy [("block", psdWhy (fidBlock ρ σ W) L)]
+
+def hMatsDual : Handler := fun j => do
+  let n ← getNat j "n"
+  let r := natOr j "r" (n + n)
+  let ρ ← getQ j "rho" n n
+  let σ ← getQ j "sigma" n n
+  let Y ← getQ j "Y" n n
+  let Z ← getQ j "Z" n n
+  let C ← getQ j "C" n n
+  let L ← getQ j "L" (n + n) r
+  return answer (checkMatsDual ρ σ Y Z C L) fun _ =>
+    if !offDiagOk C then "C_plus_Cct_ne_minus_2" else firstWhy [("dual_block", psdWhy (dualBlock Y Z C) L)]
+
+def hExact : Handler := fun j => do
+  let n ← getNat j "n"
+  let ρ ← getQ j "rho" n n
+  let σ ← getQ j "sigma" n n
+  return Json.mkObj [("hs", ratJson (hsDist ρ σ)), ("trprod", ratJson (trProd ρ σ)),
+    ("trprod4", ratJson (trProd4 ρ σ)), ("subfidrad", ratJson (subFidRad ρ σ))]
+
+def hHsInner : Handler := fun j => do
+  let n ← getNat j "n"
+  let m ← getNat j "m"
+  let A ← getQ j "A" n m
+  let B ← getQ j "B" n m
+  let v := hsInner A B
+  return Json.mkObj [("re", ratJson v.re), ("im", ratJson v.im)]
+
+def handlers : List (String × Handler) :=
+  [("c13_tn_lower", hTNLower), ("c13_tn_upper", hTNUpper), ("c13_fid_primal", hFidPrimal),
+   ("c13_fid_primal_cong", hFidPrimalCong), ("c13_fid_dual", hFidDual), ("c13_mats_primal", hMatsPrimal),
+   ("c13_mats_dual", hMatsDual), ("c13_exact", hExact), ("c13_hs_inner", hHsInner)]
+
 end Toq.Driver.C13
